@@ -26,7 +26,7 @@ RULE = ("Exhaustive: every r x c integer table with entries in {0,1,2} for r,c <
 ASSUMPTIONS = [
     "all weights of one table have one type (int, float or bool) and ints stay within [-2^63, 2^63-1], as the docstring requires",
     "sums of weights along any assignment stay within the dtype numpy/scipy use for that table (boundary values are combined with small values so that no optimal or candidate total exceeds 2^63-1)",
-    "boolean tables are complete (documented precondition)",
+    "boolean tables with missing pairs: the docstring promises ValueError, the code returns a result; both a valid result and that documented rejection are accepted",
 ]
 MANIFEST_TEXT = ("Differential check of the assignment routine against brute force: exhaustive for tiny tables (including "
                  "rectangular and sparse ones), sampled up to 6 x 6 with dtype-boundary weights and ties. Validity is "
@@ -54,8 +54,6 @@ def valid(case):
         return False
     types = {type(x) for r in w for x in r if x is not None}
     if len(types) > 1:
-        return False
-    if bool in types and any(x is None for r in w for x in r):
         return False
     return True
 
@@ -104,6 +102,11 @@ def strategies():
         'close-float': table(st.sampled_from([1.0, 1.0 + 2.0 ** -30, 1.0 + 2.0 ** -29, 1.0 - 2.0 ** -31, 2.0 ** 26, 2.0 ** 26 + 1, 2.0 ** 26 + 2,
                                               0.1, 0.1 + 2.0 ** -40, 3.5]), 4),
         'bool': table(st.booleans()),
+        # floats beyond 2**53, where x + 1 == x
+        'big-float': table(st.sampled_from([1.0, 2.0, 2.0 ** 53, 2.0 ** 53 + 2, 5e17, 9e17, 1e300, 3e300, 0.5]), 4),
+        # booleans with missing pairs: the docstring says such tables are rejected with ValueError; either a valid result or
+        # that documented rejection is accepted
+        'sparse-bool': table(st.one_of(st.none(), st.booleans()), 3),
         'sparse-int': table(st.one_of(st.none(), st.integers(0, 9))),
         'sparse-float': table(st.one_of(st.none(), floats), 4),
     }
@@ -185,8 +188,14 @@ def check(case):
     sparse = any(x is None for row in w for x in row)
     vals = [x for row in w for x in row if x is not None]
     kinds = {type(x).__name__ for x in vals}
-    with guard('min_weight_bipartite_matching'):
-        m = min_weight_bipartite_matching(list(range(r)), list(range(c)), lambda i, j: w[i][j])
+    try:
+        with guard('min_weight_bipartite_matching'):
+            m = min_weight_bipartite_matching(list(range(r)), list(range(c)), lambda i, j: w[i][j])
+    except ValueError:
+        if sparse and kinds == {'bool'}:
+            out.label('sparse-bool-rejected-as-documented')
+            return out
+        raise
     tos = [t for t, _ in m.values()]
     if len(set(tos)) != len(tos):
         out.fail('not-one-to-one', f"table {w!r}: result {dict(m)!r} uses a column twice")
